@@ -49,8 +49,9 @@ PROPS = {
     'C16': _p(lambda t: ['bound', 'boundfrag', 'av', 'layout', 'contract', 'fraginit'],
               rule='a case is a boundary instance: timestamps are multiples of a unit U in {2^30, 2^31-1, 2^31, 2^32-1, 2^32} so that small multiples land just below / on / above the 32-bit limits of sample deltas, total durations and composition offsets; dimension / parameter-set / rate boundaries come from the layout and init-segment corpora; non-trivial when some derived quantity is within one step of a field boundary',
               assumptions=['box sizes / chunk offsets around 4 GiB are out of reach of any execution in this sandbox and are not covered', 'values are compared through quotient/remainder w.r.t. the unit because TLC integers are 32-bit']),
-    'C12': _p(lambda t: ['extreme', 'extremefrag', 'mutbytes', 'mutframes', 'contract', 'reject', 'frag', 'fn14', 'meta', 'valtab'], level='exploration',
-              rule='a case is a (public item, input) pair: argument extremes and arbitrary f64 bit patterns for every entry point, every prefix and single-bit flip of generated bitstream headers, the exhaustive small-scope byte strings, all contract probes; non-trivial when the input is not the valid baseline',
+    'C12': _p(lambda t: ['extreme', 'extremefrag', 'mutbytes', 'mutframes', 'contract', 'reject', 'finish', 'conv', 'av', 'frag', 'fraginit', 'fn14', 'fncfg', 'fnobu',
+                         'meta', 'layout', 'codeccfg', 'adts', 'bound', 'boundfrag', 'sink', 'valtab'], level='exploration',
+              rule='a case is a (public item, input) pair: argument extremes and arbitrary f64 bit patterns for every entry point, every prefix and single-bit flip of generated bitstream headers, the exhaustive small-scope byte strings, all contract probes, and every execution of every other corpus (a panic or hang anywhere is a C12 signature); non-trivial when the input is not the valid baseline',
               assumptions=['small-scope exhaustion plus grammar-directed mutation, not a proof over all byte strings', 'the harness is built with overflow checks and debug assertions; a panic is caught with catch_unwind, a call that does not return within the watchdog limit is reported as a hang']),
 
     'C17': dict(_p(lambda t: ['modes', 'conv'],
